@@ -2,7 +2,7 @@
 # seed_verify.sh <Cxx> [name] : confirm an independently seeded change in its scratch worktree /tmp/wt_<Cxx>
 # (compiles, suite passes, demo fails with / passes without), then store it under /verif/seeded/<name>.
 set -u
-P="$1"; NAME="${2:-$P}"; WT=/tmp/wt_$P; S=$WT/seed
+P="$1"; NAME="${2:-$P}"; WT=${WTDIR:-/tmp/wt_$P}; S=$WT/seed
 export CARGO_TARGET_DIR=$WT/target CARGO_NET_OFFLINE=true
 cd $WT || exit 2
 git checkout -q -- src; git apply --check $S/patch.diff || { echo "patch does not apply"; exit 2; }
